@@ -436,7 +436,7 @@ int main(int argc, char** argv) {
         return 0;
     }
     for (auto& c : load_corpus(argc > 4 ? argv[4] : NULL)) run_case(out, g, c.first, c.second);
-    long N = g_thorough ? 12000 : 260;
+    long N = g_thorough ? 8000 : 260;
     for (long i = 0; i < N; i++) {
         gen_pair(out, g, true);
         if (i % 2 == 0) lh_synthetic(out, g);
